@@ -79,7 +79,11 @@ def c17_modes(rep, tmp):
     for kind, chunks in (("stream", [2, 1]), ("packet", [2, 1]), ("stream", []), ("packet", []), ("stream", [40])):
         new = expected_stream(chunks, kind)
         for mode in ("create", "overwrite", "append"):
-            for state in ("absent", "empty", "nonempty", "directory", "missing-dir"):
+            for state in ("absent", "empty", "nonempty", "directory", "missing-dir", "dangling-symlink"):
+                if state == "dangling-symlink" and mode != "create":
+                    # Only create's answer is pinned down: the name exists
+                    # (O_EXCL semantics), so create has to fail.
+                    continue
                 d = os.path.join(tmp, "modes")
                 shutil.rmtree(d, ignore_errors=True)
                 os.makedirs(d)
@@ -92,13 +96,15 @@ def c17_modes(rep, tmp):
                     os.makedirs(path)
                 elif state == "missing-dir":
                     path = os.path.join(d, "nope", "out.bin")
+                elif state == "dangling-symlink":
+                    os.symlink(os.path.join(d, "target-that-does-not-exist"), path)
                 r = run_child(["filesink", path, mode, kind] + [str(c) for c in chunks])
                 rep["evaluations"] += 1
                 rep["distinct_nontrivial"] += 1
                 ok = "CTOR-OK" in r.stdout
                 crashed = r.returncode != 0
                 exists_before = state in ("empty", "nonempty")
-                if state in ("directory", "missing-dir"):
+                if state in ("directory", "missing-dir", "dangling-symlink"):
                     want_ok, want_bytes = False, None
                 elif mode == "create":
                     want_ok = not exists_before
@@ -124,6 +130,8 @@ def c17_modes(rep, tmp):
                         violate(rep, sig + "/content", f"{case}: file holds {got!r}, want {want_bytes!r}", case)
                 if state == "directory" and not os.path.isdir(path):
                     violate(rep, sig + "/content", f"{case}: the directory is gone", case)
+                if state == "dangling-symlink" and os.path.exists(os.path.join(d, "target-that-does-not-exist")):
+                    violate(rep, sig + "/content", f"{case}: a file was created through the dangling link", case)
 
 
 def c17_kill(rep, tmp, tier, only=None):
@@ -143,7 +151,8 @@ def c17_kill(rep, tmp, tier, only=None):
     configs.append(("packet-burst", "append", [2, 5]))
     # Enough packets for one that ends in a newline byte (packet 10).
     configs.append(("packet", "overwrite", [11, 1]))
-    configs.append(("stream-big", "overwrite", [100000, 3, 70000]))
+    # (512 pages: one work() call can find more than a megabyte waiting.)
+    configs.append(("stream-big", "overwrite", [100000, 3, 300000, 70000]))
     for kind, mode, chunks in configs:
         if only and (only["kind"], only["mode"], only["chunks"]) != (kind, mode, chunks):
             continue
